@@ -2,9 +2,11 @@ package engine
 
 import (
 	"fmt"
+	"go/ast"
 	"go/token"
 	"go/types"
 	"sort"
+	"strings"
 
 	"golang.org/x/tools/go/ssa"
 
@@ -235,6 +237,14 @@ func (e *Engine) bindLoopParams(L *ssa.Function, target *ssa.Function, li *loopI
 	for i, p := range L.Params {
 		v, ok := e.lookupVar(target, li, st, p.Name())
 		if !ok {
+			// the variable may have been renamed: if exactly one variable in scope at the loop head has the parameter's type
+			// and is not claimed by another parameter of the contract, it is taken (and the fact is noted)
+			if w, name, found := e.lookupByType(target, li, st, p.Type(), L); found {
+				e.note("loop contract %s: no variable %q in %s; bound to %q, the only variable of type %s in scope", shortFn(L), p.Name(), shortFn(target), name, p.Type())
+				v, ok = w, true
+			}
+		}
+		if !ok {
 			panic(unsupported(fmt.Sprintf("loop contract %s: no variable %q in %s at the loop head", shortFn(L), p.Name(), shortFn(target))))
 		}
 		if !types.Identical(v.T, p.Type()) && len(v.L) != len(e.ly.of(p.Type())) {
@@ -244,6 +254,69 @@ func (e *Engine) bindLoopParams(L *ssa.Function, target *ssa.Function, li *loopI
 		args[i] = v
 	}
 	return args
+}
+
+// lookupByType finds the one source-level variable in scope at the loop head whose type is t and whose name no parameter
+// of the contract uses (fallback of bindLoopParams after a rename).
+func (e *Engine) lookupByType(fn *ssa.Function, li *loopInfo, st *State, t types.Type, L *ssa.Function) (Value, string, bool) {
+	claimed := map[string]bool{"rangeindex": true, "rangeslice": true}
+	for _, p := range L.Params {
+		claimed[p.Name()] = true
+	}
+	names := map[string]bool{}
+	add := func(n string, ty types.Type) {
+		if n == "" || claimed[n] || strings.HasPrefix(n, "t") && len(n) > 1 && n[1] >= '0' && n[1] <= '9' {
+			return
+		}
+		if types.Identical(ty, t) {
+			names[n] = true
+		}
+	}
+	for _, p := range fn.Params {
+		add(p.Name(), p.Type())
+	}
+	for _, fv := range fn.FreeVars {
+		if pt, ok := fv.Type().(*types.Pointer); ok {
+			add(fv.Name(), pt.Elem())
+		}
+	}
+	for _, b := range fn.Blocks {
+		if b != li.header && !b.Dominates(li.header) {
+			continue
+		}
+		for _, ins := range b.Instrs {
+			switch x := ins.(type) {
+			case *ssa.Phi:
+				add(x.Comment, x.Type())
+			case *ssa.Alloc:
+				if pt, ok := x.Type().(*types.Pointer); ok {
+					add(x.Comment, pt.Elem())
+				}
+			case *ssa.DebugRef:
+				if id, ok := x.Expr.(*ast.Ident); ok {
+					if v, isVar := x.Object().(*types.Var); !isVar || v.IsField() {
+						continue // a field selector, a constant, a function: not a local variable
+					}
+					ty := x.X.Type()
+					if x.IsAddr {
+						if pt, ok := ty.(*types.Pointer); ok {
+							ty = pt.Elem()
+						}
+					}
+					add(id.Name, ty)
+				}
+			}
+		}
+	}
+	if len(names) != 1 {
+		e.note("loop contract %s: candidates of type %s in scope: %v", shortFn(L), t, names)
+		return Value{}, "", false
+	}
+	for n := range names {
+		v, ok := e.lookupVar(fn, li, st, n)
+		return v, n, ok
+	}
+	return Value{}, "", false
 }
 
 func (e *Engine) lookupVar(fn *ssa.Function, li *loopInfo, st *State, name string) (Value, bool) {
